@@ -23,8 +23,11 @@ def bdays(d0, n, rng=None, gap=0.0):
 def gen_case(rng, tier):
     moments = rng.random() < 0.4
     n = rng.randint(2, 20) if moments else rng.randint(2, 120 if tier == 'quick' else 700)
+    slump = (not moments) and rng.random() < 0.06
+    if slump:
+        n = rng.randint(300, 650)          # more than a trading year under water
     days = bdays(BASE + rng.randint(0, 400), n, rng, gap=rng.choice([0.0, 0.0, 0.1]))
-    shape = rng.choice(['walk', 'walk', 'up', 'down', 'peakfirst', 'flat', 'vee'])
+    shape = 'slump' if slump else rng.choice(['walk', 'walk', 'up', 'down', 'peakfirst', 'flat', 'vee'])
     if moments:
         e = float(rng.randint(4000, 4000000)) / 4
         step = lambda x: max(1.0, x + rng.randint(-40000, 40000) / 4)
@@ -39,6 +42,14 @@ def gen_case(rng, tier):
             e = max(1.0, e * (1 - rng.uniform(0, 0.02))) if not moments else max(1.0, e - rng.randint(0, 4000) / 4)
         elif shape == 'peakfirst':
             e = min(eq[0] * 0.999, step(e)) if i > 0 else e
+        elif shape == 'slump':
+            # an early peak, a fall, then a slow recovery that stays below the peak for the rest of the curve
+            if i < 10:
+                e = e * 1.01
+            elif i < 40:
+                e = e * 0.985
+            else:
+                e = min(eq[9] * 0.97, e * (1 + rng.uniform(-0.002, 0.004)))
         elif shape == 'flat':
             e = e if rng.random() < 0.7 else step(e)
         elif shape == 'vee':
